@@ -172,6 +172,10 @@ impl Emit {
                 let v: Vec<String> = ps.iter().map(|d| self.eqz_poly(d)).collect();
                 format!("(and true {})", v.join(" "))
             }
+            PAtom::AnyEq(ps) => {
+                let v: Vec<String> = ps.iter().map(|d| self.eqz_poly(d)).collect();
+                format!("(or false {})", v.join(" "))
+            }
             PAtom::False => "false".into(),
         }
     }
@@ -184,6 +188,7 @@ pub enum PAtom {
     Ne(Poly),
     AnyNe(Vec<Poly>),
     AllEq(Vec<Poly>),
+    AnyEq(Vec<Poly>),
     False,
 }
 
@@ -195,13 +200,14 @@ impl PAtom {
             Atom::Ne(a, b) => PAtom::Ne(d(a, b)),
             Atom::AnyNe(v) => PAtom::AnyNe(v.iter().map(|(a, b)| d(a, b)).collect()),
             Atom::AllEq(v) => PAtom::AllEq(v.iter().map(|(a, b)| d(a, b)).collect()),
+            Atom::AnyEq(v) => PAtom::AnyEq(v.iter().map(|(a, b)| d(a, b)).collect()),
             Atom::False => PAtom::False,
         }
     }
     fn polys_mut(&mut self) -> Vec<&mut Poly> {
         match self {
             PAtom::Eq(p) | PAtom::Ne(p) => vec![p],
-            PAtom::AnyNe(v) | PAtom::AllEq(v) => v.iter_mut().collect(),
+            PAtom::AnyNe(v) | PAtom::AllEq(v) | PAtom::AnyEq(v) => v.iter_mut().collect(),
             PAtom::False => vec![],
         }
     }
